@@ -6,21 +6,25 @@ PROP = dict(
     technique=("Rocq proof (model of the periodicBackup loop over arbitrary timelines: change-driven, >= 60 s apart, retry, catch-up and quiet, bounded wake-ups, "
                "return at cancellation, body = file of the generation read) + the real loop (verif hook) in a testing/synctest bubble against an in-memory object "
                "store behind the real S3 client, upload log and exit instant compared with the model in the kernel"),
-    level_text=("Machine-checked theorems about the model of server/backup.go for EVERY timeline (write instants, per-upload store behaviour: duration, failure, "
-                "database writes racing the upload; cancellation instant): the task returns exactly at the cancellation and never later than the current wait; the first "
+    level_text=("Machine-checked theorems about the model of server/backup.go for EVERY timeline (instants of successful writes, of write attempts whose save FAILS and of "
+                "reads; per-upload store behaviour: duration, failure, database writes racing the upload; cancellation instant): the task returns exactly at the cancellation and never later than the current wait; the first "
                 "upload is at start-up; an iteration uploads iff the generation read differs from the one covered by the last acknowledged upload, and uploads the file "
                 "of exactly that generation; iterations (hence uploads) start a full minute after the previous one ended; an unacknowledged upload (failure, 5-minute "
                 "limit, abort) is retried by the next iteration; after an acknowledged upload with no further write the newest backup is the current file and no upload "
-                "follows; in any window of length W the loop body runs at most W/60s+1 times. Tied to the code by running the real loop (server.VerifRunPeriodicBackup, "
+                "follows; in any window of length W the loop body runs at most W/60s+1 times; client events that do not replace the database file (failed saves, reads) leave the whole run "
+                "unchanged, and the number of uploads is at most 1 + successful writes + unacknowledged uploads. Tied to the code by running the real loop (server.VerifRunPeriodicBackup, "
                 "real s3.Client with an in-memory HTTPClient, real db.DB) under virtual time on generated timelines (bursts, idle hours, failures at every position, slow "
                 "uploads around the 60 s and 5 min marks, writes made from inside the store's handler, cancellation at arbitrary instants incl. mid-upload): upload "
                 "instants, which file version each body is byte-identical to (every version is hashed after each write; the body must also open with the key), "
-                "acknowledgements and the exit instant are compared with the model by the kernel, together with clause monitors on the observed log."),
+                "acknowledgements and the exit instant are compared with the model by the kernel, together with clause monitors on the observed log - among them: two consecutive "
+                "acknowledged uploads never carry identical bytes, and the write generation at the end is exactly 1 + the number of successful writes (timelines contain write "
+                "attempts made while the state directory is unreachable, and list/get/info calls, at instants of their own)."),
     level_note=("Trusted: Coq kernel+VM, testing/synctest's virtual clock, the AWS SDK request path; a read of the live file returning one complete version rests on C04 "
                 "(atomic replacement) and is tested here by hashing; CPU spinning is detected by a real-time watchdog (virtual time cannot advance), the number of "
                 "WriteGen calls itself is not observable without a further hook; no two timeline events fall on the same virtual instant (generator)."),
-    rule=("260 generated timelines (thorough 6000) of kinds bursts / idle-hours / failures / racing / slow-uploads / cancel-early / mixed; one case = one run of the task "
-          "from start to cancellation; non-trivial if it has >= 3 uploads and >= 2 writes; distinct by timeline"),
+    rule=("260 generated timelines (thorough 6000) of kinds bursts / idle-hours / failures / racing / slow-uploads / cancel-early / mixed / failed-writes (every kind mixes in ~12 % failing write attempts and ~12 % reads; "
+          "failed-writes: 45 % / 30 %); one case = one run of the task "
+          "from start to cancellation; non-trivial if it has >= 3 uploads and >= 2 writes, or >= 2 failed write attempts; distinct by timeline"),
     explain=("the uploads the object store received (instants, file versions, acknowledgements) or the instant the task returned differ from the model of the backup loop "
              "(or: the task did not return after cancellation / spun without sleeping)"),
     assumptions=["virtual time: reading the generation, reading the file and issuing the request take no time", "the object store honours the request context",
